@@ -33,6 +33,11 @@ func main() {
 		time.Sleep(time.Duration(ms) * time.Millisecond)
 		mode = "talk"
 	}
+	linger := false
+	if mode == "linger" { // talks and finishes like a real helper, but does not leave by itself afterwards
+		linger = true
+		mode = "talk"
+	}
 	if mode == "talk" {
 		os.Stdout.Write([]byte("HELLO-FROM-HELPER\r\n"))
 	}
@@ -50,14 +55,14 @@ func main() {
 			if mode == "talk" && bytes.Contains(all, []byte("**\x18B08")) {
 				os.Stdout.Write([]byte("**\x18B0800000000022d\r\x8a"))
 				all = nil
-				if strings.HasSuffix(os.Args[0], "sz") {
+				if strings.HasSuffix(os.Args[0], "sz") && !linger {
 					// a sending helper says "over and out" itself and leaves
 					time.Sleep(20 * time.Millisecond)
 					logf("over and out (sender)\n")
 					os.Exit(code)
 				}
 			}
-			if bytes.Contains(all, []byte("OO")) {
+			if bytes.Contains(all, []byte("OO")) && !linger {
 				logf("over and out\n")
 				os.Exit(code)
 			}
